@@ -283,6 +283,11 @@ def run(prop, seed, budget, ctx):
         for j in range(k): f4 += ["@dataclass", f"class Pet{i}_{j}(Pet{i}):", f"    f{j}: int = 0", ""]
         f4 += ["@dataclass", f"class Owner{i}:", f"    pet: Pet{i}_0", ""]
         f4 += [f"NT{i} = NewType('NT{i}', {rnd4.choice(['int', 'str', 'bool'])})", ""]
+        # serialized methods with a conversion: the named types of the conversion's target are reached through it (a class recursive that way too)
+        f4 += [f"def ids_to_emps{i}(ids: List[int]) -> List['CEmp{i}']:", "    return []", f"def int_to_other{i}(x: int) -> Other{i}:", f"    return Other{i}(x)", "",
+               "@dataclass", f"class CEmp{i}:", "    name: str = ''", f"    @serialized(conversion=ids_to_emps{i})", "    def reports(self) -> List[int]: ...", "",
+               "@dataclass", f"class CHold{i}:", "    a: int = 0", f"    @serialized(conversion=int_to_other{i})", "    def other_id(self) -> int: ...",
+               f"    @serialized(conversion=int_to_other{i})", "    def other_again(self) -> int: ...", ""]
         # a generic class whose serialized method mentions its type variable, used specialised: the named argument is reached through the method
         f4 += ["@dataclass", f"class GAuthor{i}:", "    name: str = ''", "", "@dataclass", f"class GRef{i}(Generic[TG]):", "    id: int = 0", "    @serialized",
                "    def resolved(self) -> Optional[TG]: ...", "", "@dataclass", f"class GHold{i}:", f"    a: GRef{i}[GAuthor{i}]", f"    b: Optional[GAuthor{i}] = None", "",
@@ -316,6 +321,13 @@ def run(prop, seed, budget, ctx):
                     defs = closed_and_no_orphans(s, f"serialization_schema({root})", info)
                     if sorted(defs) != sorted(want): failures.append(dict(info, kind="P", k_ok=None, why=["extracted-definitions-differ-from-the-rule"], got=sorted(defs), expected=sorted(want), schema=s))
                     elif "GAuthor" not in json.dumps(s) and "name" not in json.dumps(s): failures.append(dict(info, kind="P", k_ok=None, why=["serialized-method-type-lost"], schema=s))
+            for root, want in ((f"CEmp{i}", [f"CEmp{i}"]), (f"CHold{i}", [f"Other{i}"] + ([f"CHold{i}"] if all_refs else []))):
+                info = {"family4": "serialized-method-with-a-conversion", "root": root, "all_refs": all_refs}
+                evaluations += 1; distinct.add(("fam4", "ser-conv", i, root[:5], all_refs))
+                s = gen4(sschema4, ns5[root], info, all_refs=all_refs)
+                if s is not None:
+                    defs = closed_and_no_orphans(s, f"serialization_schema({root})", info)
+                    if sorted(defs) != sorted(want): failures.append(dict(info, kind="P", k_ok=None, why=["extracted-definitions-differ-from-the-rule"], got=sorted(defs), expected=sorted(want), schema=s))
             info = {"family4": "recursive-through-a-serialized-method", "root": f"SNode{i}", "all_refs": all_refs}
             evaluations += 1
             s = gen4(sschema4, ns5[f"SNode{i}"], info, all_refs=all_refs)
